@@ -149,7 +149,7 @@ Qed.
 Lemma class_cap_le_maxv cfg m cap : class_cap cfg m = Ok cap -> cap <= c_maxv cfg.
 Proof.
   unfold class_cap; rewrite gen_cap_base.
-  destruct (m_rcode m) as [|[p|p|]]; try (intros [= <-]; lia).
+  destruct (class_rcode m) as [|[p|p|]]; try (intros [= <-]; lia).
   - destruct (classify_no_error m) as [cl| | |]; cbn [bind]; try discriminate.
     intros [= <-]; destruct cl; lia.
   - destruct p; intros [= <-]; lia.
